@@ -505,12 +505,13 @@ def blockwise_probe(ctx, drv, interp, n, sharing=False, extra=None, only_8_bits=
                     d = mo.buffers[t.buffer].data
                     if d is None or len(d) == 0:
                         continue
-                    need = int(np.prod(t.shape)) * {pl.TT.FLOAT32: 4, pl.TT.INT8: 1, pl.TT.INT16: 2, pl.TT.INT32: 4, pl.TT.INT64: 8, pl.TT.FLOAT16: 2}.get(t.type, 0)
+                    n_el = int(np.prod([int(x) for x in t.shape])) if t.shape is not None else 1   # a scalar is read back without a shape
+                    need = n_el * {pl.TT.FLOAT32: 4, pl.TT.INT8: 1, pl.TT.INT16: 2, pl.TT.INT32: 4, pl.TT.INT64: 8, pl.TT.FLOAT16: 2}.get(t.type, 0)
                     if t.type == pl.TT.INT4:
-                        need = (int(np.prod(t.shape)) + 1) // 2
+                        need = (n_el + 1) // 2
                     if need and need != len(d):
                         int4_bad = int4_bad or t.type == pl.TT.INT4
-                        bad = f"tensor {pl.tname(t)} ({pl.TT_NAME.get(t.type)} {list(t.shape)}) needs {need} bytes but its buffer {t.buffer} holds {len(d)}"
+                        bad = f"tensor {pl.tname(t)} ({pl.TT_NAME.get(t.type)} {[] if t.shape is None else list(t.shape)}) needs {need} bytes but its buffer {t.buffer} holds {len(d)}"
             if bad:
                 ctx.fail("a tensor over a rewritten buffer no longer agrees with its bytes: " + bad, case.replay(),
                          "blockwise-int4-unpacked" if int4_bad and bits == 4 else "blockwise-shared-bytes")
